@@ -128,6 +128,8 @@ def _check_axis_body(c1, n_months, res, ref, hl):
 
 def run_via_ghe(case, res):
     """the hybrid loads as real GHE objects build them, for a sequence of horizons in one process (same loads, same borehole)"""
+    from ghedesigner.enums import TimestepType
+
     from vf import ghe_factory
 
     base = {k: v for k, v in case.items() if k not in ("via_ghe", "sequence")}
@@ -137,16 +139,71 @@ def run_via_ghe(case, res):
     for k, n in enumerate(case["sequence"]):
         gf = ghe_factory.table_gfunction(coords, 5.0, [60.0, 97.5, 135.0], 0.075)
         ghe = ghe_factory.make_ghe(coords, H=97.5, loads=loads, months=n, gfunc=gf)
-        check_axis(base, n, res, loads, ref, hl=ghe.hybrid_load, c1=dict(case, sequence=case["sequence"][:k + 1]))
+        c1 = dict(case, sequence=case["sequence"][:k + 1])
+        check_axis(base, n, res, loads, ref, hl=ghe.hybrid_load, c1=c1)
+        try:
+            ghe.simulate(method=TimestepType.HYBRID)
+        except Exception as e:  # noqa: BLE001
+            res["violations"].append(core.viol("simulation_on_hybrid_axis_raises", c1, msg=f"{type(e).__name__}: {e}"))
+            continue
+        _check_run_axis(ghe, n, res, c1)
     res["nontrivial"] += 1
     res.outcome("via_ghe_sequences")
     res["sample"] = dict(case)
+
+
+def run_manager_history(case, res):
+    """one GHEManager whose horizon is set, then set again (set_simulation_parameters twice, set_design after), then designed with the
+    real physics: the exchanger the design returns must run on the axis of the horizon requested last"""
+    from vf import physics
+
+    loads = physics.loads(case["load"])
+    ref = LG.monthly_reference(loads)
+    hist = case["manager_history"]
+    m = physics.manager("nearsquare", load=case["load"], months=hist[0], geo=case.get("geo"))
+    for n in hist[1:]:
+        m.set_simulation_parameters(num_months=n, max_eft=35.0, min_eft=5.0, max_height=135.0, min_height=60.0)
+        m.set_design(flow_rate=0.3, flow_type_str="borehole")
+    exc = physics.find(m)
+    res["evals"] += 1
+    if exc is not None:
+        res.bump("manager_history_no_design")
+        res.outcome("manager_history_no_design")
+        return
+    ghe = m._search.ghe
+    n = hist[-1]
+    check_axis({"load": case["load"]}, n, res, loads, ref, hl=ghe.hybrid_load, c1=dict(case))
+    _check_run_axis(ghe, n, res, dict(case))
+    res["nontrivial"] += 1
+    res.outcome("manager_histories")
+    res["sample"] = dict(case)
+
+
+def _check_run_axis(ghe, n_months, res, c1):
+    """the axis the hybrid simulation actually ran on (GHE.times / loading / hp_eft, the time column of the outputs)"""
+    import numpy as np
+
+    end = LG.month_end_hours(n_months)[-1]
+    t = np.asarray(ghe.times, dtype=float)
+    hl = np.asarray(ghe.hybrid_load.hour[2:], dtype=float)
+    bad = None
+    if len(t) == 0 or t[-1] != end:
+        bad = f"the simulated axis ends at hour {t[-1] if len(t) else None}, the {n_months}-month horizon ends at hour {end}"
+    elif len(t) != len(hl) or np.any(t != hl):
+        bad = f"the simulated axis has {len(t)} steps, the hybrid sequence {len(hl)}"
+    elif len(ghe.hp_eft) != len(t) or len(ghe.loading) != len(t):
+        bad = f"{len(ghe.hp_eft)} fluid temperatures / {len(ghe.loading)} loads for {len(t)} time steps"
+    if bad:
+        res["violations"].append(core.viol("simulated_axis_differs_from_horizon", c1, msg=bad, mod12=n_months % 12 if n_months % 12 in (0, 1) else "other"))
 
 
 def run_case(case):
     res = core.Result(evals=0)
     if case.get("via_ghe"):
         run_via_ghe(case, res)
+        return res
+    if case.get("manager_history"):
+        run_manager_history(case, res)
         return res
     loads = c06.profile_of(case)
     ref = LG.monthly_reference(loads)
@@ -177,11 +234,14 @@ def main(run: core.Run, only=None):
         for seq in ([240, 360, 30], [12, 24, 12], [37, 13, 1]):
             via.append(dict(c, via_ghe=True, sequence=seq))
     run.drive(via, family="via-ghe-sequences")
+    hists = [[24, 13], [12, 36], [13, 12]] if run.tier == "quick" else [[24, 13], [12, 36], [13, 12], [1, 25], [36, 7], [24, 24], [12, 13, 14]]
+    mh = [{"manager_history": h, "load": ld} for h in hists for ld in (("office",) if run.tier == "quick" else ("office", "balanced"))]
+    run.drive(mh, family="manager-histories", chunksize=1)
     return run.finish(
-        rule="family via-ghe-sequences: the hybrid loads built by real GHE objects for sequences of horizons in one process; family axis: 22 representative profiles x horizons (quick: 14 horizons; thorough: every horizon 1..360); one evaluation = one "
+        rule="family manager-histories: one manager whose horizon is set twice through the public setters, designed with the real physics, the returned exchanger's axis checked; family via-ghe-sequences: the hybrid loads built by real GHE objects for sequences of horizons in one process; family axis: 22 representative profiles x horizons (quick: 14 horizons; thorough: every horizon 1..360); one evaluation = one "
              "HybridLoad whose hour axis is checked; non-trivial = horizon not a multiple of 12",
         bounds={"profiles": len(reps), "horizons": QUICK_H if run.tier == "quick" else "1..360"},
         assumptions=["non-leap 8760-hour years", "peak windows are rebuilt from the reported durations and the input profile's own "
                      "peak days; months whose windows overlap each other or a month boundary are counted, not asserted for ordering"],
-        require_outcomes=("horizon_not_multiple_of_12", "via_ghe_sequences"),
+        require_outcomes=("horizon_not_multiple_of_12", "via_ghe_sequences", "manager_histories"),
     )
